@@ -377,6 +377,8 @@ def sort_changes(inp):
         return 'nomap'
     if not all(i in m for i in inp['c_ids'] + inp['n_ids']):
         return 'keyerror'
+    if len({m[i] for i in inp['n_ids']}) < len(inp['n_ids']) or len({m[i] for i in inp['c_ids']}) < len(inp['c_ids']):
+        return 'not-injective'
     a = list(np.argsort([m[i] for i in sorted(inp['n_ids'])]))
     b = list(np.argsort([m[i] for i in sorted(inp['c_ids'])]))
     return 'resorted' if (a != sorted(a) or b != sorted(b)) else 'order-kept'
@@ -389,12 +391,12 @@ def cases(ctx, r, thorough):
         perms = list(itertools.permutations(range(N)))
         # every permutation x every API-reachable cache state
         for order in perms:
-            acts = ACTIONS if (thorough or N == 2) else ['none', 'ff', 'cm', 'ff+conservative', 'tpl', 'ffonly']
+            acts = ACTIONS if (thorough or N == 2) else [['ff', 'none', 'tpl'], ['cm', 'ff+conservative', 'ffonly']][len(out) % 2]
             for action in acts:
                 inp = make_input(r, N, basis_kind='pauli' if r.random() < 0.8 else None)
                 out.append((inp, list(order), None, action))
         # arbitrary cache states (subsets of the slots), incl. ones the public API does not reach
-        nsub = (120 if N == 2 else 60) if thorough else (28 if N == 2 else 10)
+        nsub = (120 if N == 2 else 60) if thorough else (28 if N == 2 else 6)
         for _ in range(nsub):
             inp = make_input(r, N, basis_kind='pauli' if r.random() < 0.85 else None)
             keep = [s for s in SLOTS if r.random() < 0.6]
@@ -409,6 +411,11 @@ def cases(ctx, r, thorough):
     inp = make_input(r, 2, basis_kind='pauli', mapkind='reorder')
     inp['mapping'] = {k: v for k, v in list(inp['mapping'].items())[:-1]}      # KeyError
     out.append((inp, [1, 0], None, 'ff'))
+    for _ in range(2):
+        inp = make_input(r, 2, basis_kind='pauli', mapkind='reorder')
+        if len(inp['n_ids']) > 1:
+            inp['mapping'][inp['n_ids'][1]] = inp['mapping'][inp['n_ids'][0]]     # not one-to-one: ValueError
+            out.append((inp, [1, 0], None, 'ff'))
     return out
 
 
@@ -420,8 +427,10 @@ def check_case(inp, order, keep, action):
     fails = []
     if q is None:
         impl_lit = 'None'
-        valid = sorted(order) == list(range(inp['N'])) and (inp['mapping'] is None or all(
-            i in inp['mapping'] for i in inp['c_ids'] + inp['n_ids']))
+        m = inp['mapping']
+        valid = sorted(order) == list(range(inp['N'])) and (m is None or (
+            all(i in m for i in inp['c_ids'] + inp['n_ids'])
+            and len({m[i] for i in inp['c_ids']}) == len(inp['c_ids']) and len({m[i] for i in inp['n_ids']}) == len(inp['n_ids'])))
         if valid:
             fails.append(('exception', 'remap raised %s on a valid input' % exc))
     else:
@@ -534,7 +543,13 @@ def run(ctx):
             nontriv.add(key)
         if len(samples) < 5:
             samples.append(dict(tags=inp['tags'], order=order, cache=action or keep))
-    res = ctx.eval_tallies(HEADER, defs, per_file=12)
+    # 3-qubit cases are ~40 kB of literals each: keep the files small so that they are evaluated in parallel
+    small = [d for d, (inp, _) in zip(defs, meta) if inp['N'] < 3]
+    big = [d for d, (inp, _) in zip(defs, meta) if inp['N'] >= 3]
+    order_ = small + big
+    meta = [m for m in meta if m[0]['N'] < 3] + [m for m in meta if m[0]['N'] >= 3]
+    defs = order_
+    res = ctx.eval_tallies(HEADER, small, per_file=12) + ctx.eval_tallies(HEADER, big, per_file=3)
     agree = 0
     for (name, _), x, (inp, extra) in zip(defs, res, meta):
         if x is None:
